@@ -148,6 +148,11 @@ def gen_mesh(rng, force_valid=True):
         elif z == "vary":
             c.append(_val(rng))
         coords[str(n)] = c
+    if len(used) > 1 and rng.random() < 0.3:
+        # distinct nodes at the same position (tied contact, crack faces, duplicated interface nodes)
+        for _ in range(rng.randint(1, 3)):
+            a, b = rng.sample(used, 2)
+            coords[str(b)] = list(coords[str(a)])
     if z == "vary":
         zs = [c[2] for c in coords.values()]
         if all(v == zs[0] for v in zs):
